@@ -424,7 +424,10 @@ def _lifecycle(ctx: Ctx, model):
 DYNAMIC_TABLES = {
     "Node": ["connections", "peer_sockets", "socket_peers", "_half_ready_connections",
              "_peer_waiting_answer", "_app_waiting_answer", "_origin_waiting_answer",
-             "_sent_answers"],
+             "_sent_answers",
+             # configuration tables: add_peer() / add_application() are supported on a running
+             # node (the examples register the application after start())
+             "peers", "_peer_routes"],
     "Application": ["_answer_waiting"],
     # statistics: keys appear with the first command name / result-code range seen, on connection
     # and application threads, while the I/O thread (statistics logging) and the statistics
